@@ -119,7 +119,7 @@ pub unsafe fn stub_load(p: *const __m128i) -> __m128i {
     core::mem::transmute::<u128, __m128i>(uf_load::call(p as usize))
 }
 
-//@ harness name=kuz_leaf_transform_flow prop=C07,C20 tier=quick bits=129 stub=1 quick=C20 est=45 desc="L: data flow of transform for all 2^128 b and both tables: transform(b, &T) == XOR over octet positions p of load(&T[4096 p + 16 b_p]), the 128-bit load being an uninterpreted function of its address; includes the alignment debug_assert and the in-bounds pointer arithmetic of all sixteen loads"
+//@ harness name=kuz_leaf_transform_flow prop=C07,C20 tier=quick bits=129 stub=1 quick=C20 est=50 desc="L: data flow of transform for all 2^128 b and both tables: transform(b, &T) == XOR over octet positions p of load(&T[4096 p + 16 b_p]), the 128-bit load being an uninterpreted function of its address; includes the alignment debug_assert and the in-bounds pointer arithmetic of all sixteen loads"
 verif_harness! {
     name: kuz_leaf_transform_flow,
     bytes: 17,
@@ -141,7 +141,7 @@ verif_harness! {
 
 // ---------------------------------------------------------------------------------------------------------- key schedule
 
-//@ harness name=kuz_sse2_keys prop=C07,C20 tier=quick bits=256 stub=1 quick=C20 est=90 desc="W: round keys of KuznyechikEnc::new(key) (sse2 expand_enc_keys, incl. the aligned loads of KEYGEN) == oracle K1..K10 (Feistel key schedule with the computed C_1..C_32) for all 2^256 keys; transform(., &ENC_TABLE) and the oracle's L S are ONE uninterpreted function (32 applications per side); the oracle's C_i come from the compile-time table (lemma kuz_oracle_consts)"
+//@ harness name=kuz_sse2_keys prop=C07,C20 tier=quick bits=256 stub=1 quick=C20 est=80 desc="W: round keys of KuznyechikEnc::new(key) (sse2 expand_enc_keys, incl. the aligned loads of KEYGEN) == oracle K1..K10 (Feistel key schedule with the computed C_1..C_32) for all 2^256 keys; transform(., &ENC_TABLE) and the oracle's L S are ONE uninterpreted function (32 applications per side); the oracle's C_i come from the compile-time table (lemma kuz_oracle_consts)"
 verif_harness! {
     name: kuz_sse2_keys,
     bytes: 32,
@@ -275,7 +275,7 @@ verif_harness! {
     stubs: [(crate::sse2::backends::transform, stub_transform), (crate::sse2::backends::sub_bytes, stub_sub_bytes)],
     prop: |inp| { k::w_roundtrip_rk(inp, 0, true) }
 }
-//@ harness name=kuz_sse2_rt_ed prop=C01,C20 tier=quick bits=1408 stub=1 est=155 need=5 desc="W: Kuznyechik::from(&enc): dec(enc(b)) == b, arbitrary round keys, all blocks (S, L uninterpreted inverse pairs) (linearity instances of L^-1 assumed, lemma kuz_lin_linv)"
+//@ harness name=kuz_sse2_rt_ed prop=C01,C20 tier=quick bits=1408 stub=1 est=230 need=5 desc="W: Kuznyechik::from(&enc): dec(enc(b)) == b, arbitrary round keys, all blocks (S, L uninterpreted inverse pairs) (linearity instances of L^-1 assumed, lemma kuz_lin_linv)"
 verif_harness! {
     name: kuz_sse2_rt_ed,
     bytes: 160 + 16,
